@@ -1085,16 +1085,23 @@ Proof.
   - apply IH. unfold wn_nodup. simpl. apply nodup_alist_set. exact N.
 Qed.
 
+Lemma wn_nodup_add_input : forall w to from kind fields,
+  wn_nodup w -> wn_nodup (fst (w_add_input w to from kind fields)).
+Proof.
+  intros w to from kind fields N. unfold w_add_input.
+  set (nodes := if String.eqb to END_ && negb (is_some (alist_get to (w_nodes w)))
+                then alist_set to (mkWN [] MNone []) (w_nodes w) else w_nodes w).
+  assert (NN : NoDup (map fst nodes)) by (unfold nodes; dif; [apply nodup_alist_set|]; exact N).
+  destruct (alist_get to nodes); [|exact N]. unfold wn_nodup. simpl. apply nodup_alist_set. exact NN.
+Qed.
+
 Lemma wn_nodup_wstep : forall v w call, wn_nodup w -> wn_nodup (fst (wstep v w call)).
 Proof.
   intros v w [] N; simpl.
   - destruct (g_add_node _ _ _ _ _ _). unfold wn_nodup. simpl. apply nodup_alist_set. exact N.
-  - set (nodes := if String.eqb to END_ && negb (is_some (alist_get to (w_nodes w)))
-                  then alist_set to (mkWN [] MNone []) (w_nodes w) else w_nodes w).
-    assert (NN : NoDup (map fst nodes)) by (unfold nodes; dif; [apply nodup_alist_set|]; exact N).
-    destruct (alist_get to nodes); [|exact N]. unfold wn_nodup. simpl. apply nodup_alist_set. exact NN.
+  - apply wn_nodup_add_input. exact N.
   - exact N.
-  - destruct (g_add_edge _ _ _ _ _ _). exact N.
+  - apply wn_nodup_add_input. exact N.
   - set (nodes := if String.eqb k END_ && negb (is_some (alist_get k (w_nodes w)))
                   then alist_set k (mkWN [] MNone []) (w_nodes w) else w_nodes w).
     assert (NN : NoDup (map fst nodes)) by (unfold nodes; dif; [apply nodup_alist_set|]; exact N).
